@@ -1302,12 +1302,14 @@ func (r *multiCIDRRangeAllocator) reconcileDelete(ctx context.Context, clusterCI
 	defer r.lock.Unlock()
 
 	logger := klog.FromContext(ctx)
+	// Stop allocating from the ClusterCIDR and unmap it whether or not the finalizer made it to the
+	// object: the cidrSets are mapped before the finalizer is persisted.
+	logger.V(2).Info("Releasing ClusterCIDR", "clusterCIDR", clusterCIDR.Name)
+	if err := r.deleteClusterCIDR(logger, clusterCIDR); err != nil {
+		logger.V(2).Info("Error while deleting ClusterCIDR", "err", err)
+		return err
+	}
 	if slice.ContainsString(clusterCIDR.GetFinalizers(), clusterCIDRFinalizer, nil) {
-		logger.V(2).Info("Releasing ClusterCIDR", "clusterCIDR", clusterCIDR.Name)
-		if err := r.deleteClusterCIDR(logger, clusterCIDR); err != nil {
-			logger.V(2).Info("Error while deleting ClusterCIDR", "err", err)
-			return err
-		}
 		// Remove the finalizer as delete is successful.
 		cccCopy := clusterCIDR.DeepCopy()
 		cccCopy.ObjectMeta.Finalizers = slice.RemoveString(cccCopy.ObjectMeta.Finalizers, clusterCIDRFinalizer, nil)
